@@ -189,6 +189,17 @@ func TestC05Proc(t *testing.T) {
 				Ops:  []string{"new", "start", "sleep:1500", "proc?", "kill", "proc?"}})
 		}
 	}
+	// start timeouts so short that they have expired before the launch call returns (1 ns, 50 us, 2 ms), against a silent
+	// plugin and against one that prints a valid-looking line at once
+	for _, ns := range []int{1, 50_000, 2_000_000} {
+		for _, launch := range []string{"cmd", "runner"} {
+			for name, sc := range map[string]string{"silence": "exec sleep 30", "prompt bad line": "echo '1|9|tcp|127.0.0.1:1'; exec sleep 30"} {
+				cells = append(cells, Cell{Name: fmt.Sprintf("launch=%s cause=start timeout of %d ns, plugin: %s", launch, ns, name), Plugin: PluginConf{LegacyProto: "netrpc"},
+					Host: HostConf{Allowed: []string{"netrpc", "grpc"}, TLS: "none", Launch: launch, Legacy: 1, Script: sc, StartTimeoutNs: ns},
+					Ops:  []string{"new", "start", "sleep:1500", "proc?", "kill", "proc?"}})
+			}
+		}
+	}
 	results := runCells(base, cells)
 	out := &enumResult{Exhaustive: true, Outcomes: map[string]int{}}
 	for i, r := range results {
